@@ -187,6 +187,13 @@ func DecodeClaimsFromCBOR(buf []byte) (IClaims, error) {
 		return nil, err
 	}
 
+	// a claims-set is a CBOR map; anything else that the decoder lets
+	// through (notably null, silently taken as "no claims") is not a PSA
+	// token
+	if buf[0]>>5 != 5 {
+		return nil, errors.New("CBOR decoding of PSA claims failed: expected a CBOR map")
+	}
+
 	entry, ok := profilesRegister[selector.Profile]
 	if !ok {
 		return nil, fmt.Errorf("unknown profile: %q", selector.Profile)
